@@ -255,24 +255,53 @@ func rulePrune(c *Ctx, r *Report) {
 					})
 					continue
 				}
-				if be, ok := e.(*ast.BinaryExpr); ok {
-					isLen := strings.HasSuffix(types.ExprString(be.X), ".Len()")
-					zero, _ := ConstOf(info, be.Y)
-					if isLen && zero == "0" && ((be.Op == token.NEQ && ft.Pos) || (be.Op == token.EQL && !ft.Pos) || (be.Op == token.GTR && ft.Pos)) {
-						witness = "non-zero length"
+				// witnessOf: what a condition (with polarity) proves about the field: a positive
+				// disjunction needs a witness in every disjunct, a positive conjunction in any.
+				var witnessOf func(e ast.Expr, pos bool) string
+				witnessOf = func(e ast.Expr, pos bool) string {
+					e = ast.Unparen(e)
+					if u, ok := e.(*ast.UnaryExpr); ok && u.Op == token.NOT {
+						return witnessOf(u.X, !pos)
 					}
+					if be, ok := e.(*ast.BinaryExpr); ok {
+						if (be.Op == token.LOR && pos) || (be.Op == token.LAND && !pos) {
+							a, b := witnessOf(be.X, pos), witnessOf(be.Y, pos)
+							if a != "" && b != "" {
+								if a == b {
+									return a
+								}
+								return a + " or " + b
+							}
+							return ""
+						}
+						if (be.Op == token.LAND && pos) || (be.Op == token.LOR && !pos) {
+							if a := witnessOf(be.X, pos); a != "" {
+								return a
+							}
+							return witnessOf(be.Y, pos)
+						}
+						isLen := strings.HasSuffix(types.ExprString(be.X), ".Len()")
+						zero, _ := ConstOf(info, be.Y)
+						if isLen && zero == "0" && ((be.Op == token.NEQ && pos) || (be.Op == token.EQL && !pos) || (be.Op == token.GTR && pos)) {
+							return "non-zero length"
+						}
+					}
+					if call, ok := e.(*ast.CallExpr); ok {
+						fn := FullName(Callee(info, call))
+						if fn == "reflect.DeepEqual" && !pos {
+							return "non-zero leaf"
+						}
+						if fn == "reflect.Value.IsNil" && !pos {
+							return "non-nil pointer"
+						}
+					}
+					return ""
 				}
-				if call, ok := e.(*ast.CallExpr); ok {
-					fn := FullName(Callee(info, call))
-					if fn == "reflect.DeepEqual" && !ft.Pos {
-						witness = "non-zero leaf"
-					}
-					if fn == "reflect.Value.IsNil" && !ft.Pos && witness == "" {
-						witness = "non-nil pointer"
-					}
+				if w := witnessOf(e, ft.Pos); w != "" && (witness == "" || witness == "non-nil pointer") {
+					witness = w
 				}
 			}
-			if inOM && witness == "non-nil pointer" {
+			if inOM && strings.Contains(witness, "non-nil pointer") {
 				witness = "" // a non-nil ordered map may still be empty (and is then pruned itself)
 			}
 			r.Check(witness != "", fmt.Sprintf("ygot.pruneBranchesInternal:keeps-parent#%d", k), c.Pos(as.Pos()), "the flag is cleared only with a witness that the field keeps data: "+witness,
